@@ -83,7 +83,16 @@ func replayNative(cx *Cex, cexPath string, search int) replayResult {
 			if pkgDir != "internal/verif" {
 				name = "zz_verif_" + name
 			}
-			rep[filepath.Join(repoDir, pkgDir, name)] = filepath.Join(root, e.Name(), f.Name())
+			virt := filepath.Join(repoDir, pkgDir, name)
+			dropped := false
+			for _, df := range droppedHarness {
+				if df.file == virt {
+					dropped = true // does not compile against this tree (see loadConfig): not part of the replay build either
+				}
+			}
+			if !dropped {
+				rep[virt] = filepath.Join(root, e.Name(), f.Name())
+			}
 		}
 	}
 	pd := pkgDirOf(cx.Package)
